@@ -123,6 +123,12 @@ class Executor(ExprMixin):
                 return c
         return None
 
+    def function_contract(self, name: str) -> Optional[Contract]:
+        for k, c in self.contracts.items():
+            if k.split(":")[1] == name and k.split(":")[0] == self.filename:
+                return c
+        return None
+
     def contract_for_attr(self, name: str) -> Optional[Contract]:
         for k, c in self.contracts.items():
             if k.split(":")[1].split(".")[-1] == name:
@@ -180,6 +186,14 @@ class Executor(ExprMixin):
             return [PyCallable("rulefn", prefix, ident=fresh(prefix + "_id", I), strict=ty.endswith("+"))]
         if ty == "pabs":
             return [fresh(prefix, PAbs)]
+        if ty == "linesrc":
+            p = fresh(prefix + "_pos", I)
+            items = fresh(prefix + "_lines", StrSeq)
+            jq = z3.Int("ls!q")
+            st.assume(z3.And(p >= 0, p <= z3.Length(items)))
+            # A3: readline yields finitely many non-empty lines and then '' forever
+            st.assume(z3.ForAll([jq], z3.Implies(z3.And(jq >= 0, jq < z3.Length(items)), z3.Length(items[jq]) > 0)))
+            return [PyCallable("linesrc", prefix, bound=PyGen(items, p))]
         if ty.startswith("obj:"):
             cls = ty[4:]
             shape = self.classes[cls]
@@ -500,9 +514,19 @@ class Executor(ExprMixin):
                 st.env[n] = self.rel_fresh(st.env[n], f"h_{n}", n)
         for a in sorted(attrs) + list(extra_paths):
             self.havoc_path(st, a, "h_")
+        if any(isinstance(n, (ast.Yield, ast.YieldFrom)) for b in body for n in ast.walk(b)) and "yielded" in st.env:
+            st.env["yielded"] = fresh("h_yielded", TokSeq)
         for c in calls:
             f = c.func
             tgt = None
+            if isinstance(f, ast.Name) and self.function_contract(f.id) is not None:
+                fc = self.function_contract(f.id)
+                pn = [p for p in fc.params]
+                amap = {p: ast.unparse(a) for p, a in zip(pn, c.args)}
+                for m in fc.modifies:
+                    head = m.split(".")[0]
+                    if head in amap:
+                        self.havoc_path(st, amap[head] + m[len(head):], "h_")
             if isinstance(f, ast.Attribute):
                 tgt = self.contract_for_attr(f.attr)
                 try:
@@ -698,6 +722,38 @@ class Executor(ExprMixin):
         # variant of a for-loop over a finite sequence is len - _i (automatic)
         return out
 
+    # ------------------------------------------------------------------ generators: yielded tokens go to the ghost sequence `yielded`
+    def _emit(self, st, v):
+        out = st.env.get("yielded")
+        if out is None:
+            out = z3.Empty(TokSeq)
+        if not is_tok(v):
+            raise Unsupported("yield of a non-token")
+        n = z3.Length(out)
+        nw = fresh("yielded", TokSeq)
+        jq = z3.Int("yj!q")
+        st.assume(z3.Length(nw) == n + 1)
+        st.assume(z3.ForAll([jq], z3.Implies(z3.And(jq >= 0, jq < n), nw[jq] == out[jq])))
+        st.assume(nw[n] == v)
+        st.assume(nw == z3.Concat(out, z3.Unit(v)))
+        st.env["yielded"] = nw
+
+    def e_Yield(self, e, st):
+        def k(p, v):
+            self._emit(p, v)
+            return [(p, NONE)]
+        return self.bind(self.eval(e.value, st), k)
+
+    def e_YieldFrom(self, e, st):
+        """`yield from f(...)` where f is a generator function under contract: its yielded tokens (fresh sequence constrained by
+        the callee's ensures over `yielded`) are appended to ours; the value is the callee's return value"""
+        self.yield_from_depth = getattr(self, "yield_from_depth", 0) + 1
+        try:
+            res = self.eval(e.value, st)
+        finally:
+            self.yield_from_depth -= 1
+        return res
+
     # ------------------------------------------------------------------ calls
     def e_Call(self, e, st):
         f = e.func
@@ -709,6 +765,11 @@ class Executor(ExprMixin):
             if f.id in self.spec_funcs and f.id not in st.env:
                 args = [self.eval1(a, st) for a in e.args]
                 return [(st, self.spec_funcs[f.id](self, st, *args))]
+            fc = self.function_contract(f.id)
+            if fc is not None and f.id not in st.env:
+                def kf(p, vals):
+                    return self.call_contract(p, fc, None, vals, {}, e)
+                return self.bind(self.eval_list(list(e.args), st), kf)
         if isinstance(f, ast.Attribute) and f.attr in ("append", "pop", "clear", "extend") and isinstance(f.value, (ast.Name, ast.Attribute)):
             base = self.eval1(f.value, st)
             if is_seq(base):
@@ -754,6 +815,11 @@ class Executor(ExprMixin):
                 return [(st, self.tok_method(st, fn.bound, fn.name, args, kwargs, node))]
             if fn.kind == "valmethod":
                 return self.val_method(st, fn.bound, fn.name, args, kwargs, node)
+            if fn.kind == "linesrc":
+                g = fn.bound
+                v = z3.If(g.pos < z3.Length(g.items), g.items[g.pos], z3.StringVal(""))
+                g.pos = z3.If(g.pos < z3.Length(g.items), g.pos + 1, g.pos)
+                return [(st, v)]
             if fn.kind == "nested":
                 raise Unsupported("call of a nested function")
         if isinstance(fn, PyConst):
@@ -1016,6 +1082,10 @@ class Executor(ExprMixin):
             s2.env = dict(env2)
             s2.env["result"] = res
             s2.old = old
+            ys = None
+            if c.generator:
+                ys = fresh("ys", TokSeq)
+                s2.env["yielded"] = ys
             self.assuming = True
             try:
                 for en in c.ensures:
@@ -1023,6 +1093,16 @@ class Executor(ExprMixin):
                     p.assume(g)
             finally:
                 self.assuming = False
+            if ys is not None:
+                cur = p.env.get("yielded")
+                cur = z3.Empty(TokSeq) if cur is None else cur
+                nw = fresh("yielded", TokSeq)
+                jq = z3.Int("yc!q")
+                p.assume(nw == z3.Concat(cur, ys))
+                p.assume(z3.Length(nw) == z3.Length(cur) + z3.Length(ys))
+                p.assume(z3.ForAll([jq], z3.Implies(z3.And(jq >= 0, jq < z3.Length(cur)), nw[jq] == cur[jq])))
+                p.assume(z3.ForAll([jq], z3.Implies(z3.And(jq >= 0, jq < z3.Length(ys)), nw[z3.Length(cur) + jq] == ys[jq])))
+                p.env["yielded"] = nw
             if self.feasible(p, z3.BoolVal(True)):
                 out.append((p, res))
             elif len(results) == 1:
@@ -1190,6 +1270,7 @@ class Executor(ExprMixin):
     def verify(self, c: Contract):
         """symbolically execute the real body of the function named by the contract; fills self.vcs"""
         self.cur = c
+        self.yield_from_depth = 0
         self.loop_counter = 0
         qual = c.name.split(":")[1].split("#")[0]
         fn = self.find_function(qual)
@@ -1239,6 +1320,8 @@ class Executor(ExprMixin):
             if not self.feasible(s, z3.BoolVal(True)):
                 self.vc(s, z3.BoolVal(False), "vacuity", "precondition together with the type invariants is satisfiable", fn.lineno)
                 continue
+            if c.generator:
+                s.env["yielded"] = z3.Empty(TokSeq)
             old = St()
             memo: dict = {}
             old.env = {k: clone(v, memo) for k, v in s.env.items()}
